@@ -448,7 +448,7 @@ where
         }
         if self.write_to_bucket(i2, f) {
             self.n_elements += 1;
-            return Ok(false);
+            return Ok(true);
         }
 
         // cannot write to obvious buckets => relocate
